@@ -313,9 +313,24 @@ Fixpoint depth_okb (cells : list cell) (fuel : nat) (k : nat) : bool :=
 Definition acyclicb (cells : list cell) : bool :=
   forallb (depth_okb cells (List.length cells)) (seq 0 (List.length cells)).
 
-(** layer table invariants of the Rust types (i16 numbers) *)
+(** layer table: the numbers are i16 (invariant of the Rust types), every layer's two maps agree:
+    the purpose registered under a number is registered under that number
+    (`layer.num(layer.purpose(n)) == n` for every number n in use) *)
+Definition layer_consistentb (l : layer) : bool :=
+  forallb (fun np => match layer_purpose l (fst np) with
+                     | Some p' => match layer_pnum l p' with Some n' => n' =? fst np | None => false end
+                     | None => false
+                     end) (l_pairs l).
+(** and the layer numbers are pairwise distinct (`layers.keynum(l.layernum)` is `l` itself) *)
+Fixpoint z_nodupb (l : list Z) : bool :=
+  match l with
+  | [] => true
+  | x :: r => negb (existsb (Z.eqb x) r) && z_nodupb r
+  end.
+Definition layer_nums_distinctb (ly : layers) : bool := z_nodupb (map l_num ly).
 Definition layers_okb (ly : layers) : bool :=
-  forallb (fun l => i16_okb (l_num l) && forallb (fun np => i16_okb (fst np)) (l_pairs l)) ly.
+  forallb (fun l => i16_okb (l_num l) && forallb (fun np => i16_okb (fst np)) (l_pairs l) &&
+                    layer_consistentb l) ly && layer_nums_distinctb ly.
 
 Definition exportableb (L : library) : bool :=
   let cells := lib_cells L in
